@@ -89,6 +89,15 @@ CHECKS["C08"] = ("DESIGN.md C08",
     "every insertion order. Decimal rendering (repr(float) is C code) is a concrete ladder and "
     "outside the solver claim.")
 
+CHECKS["C18"] = ("DESIGN.md C18",
+    "s (<= 3, thorough 4), t, a, b (<= 2) as strings of unconstrained symbolic characters through "
+    "contains/find/in/starts_with/ends_with/length/+/substr/find_last, replace (against a "
+    "left-to-right non-overlapping reference), reverse, upper/lower/trim idempotence, chr/ord over "
+    "all scalar values, join/unlines/unwords/q, s() with every format suffix and sprintf with "
+    "symbolic surrounding text and values. split/escape_pattern/join inverse goes through the C re "
+    "module and is a finite-domain enumeration (13 separators incl. every regex metacharacter, "
+    "subjects over separator characters and 'a' up to length 3/4).")
+
 NA = {}
 
 
